@@ -1,15 +1,16 @@
 SPECIFICATION Spec
 CONSTANTS
-  Policy = "reusable"
+  Policies = {"reusable"}
   Threads = {t1}
   MaxCreate = 4
-  MaxLive = 1
+  MaxOverlap = 3
   Classes = {1, 2, 3}
-  Trailer = 0
-  InitSize = 0
-  NSlots = 3
+  StackInits = {0, 200}
+  BufferInits = {0, 200}
+  PlaceInits = {300}
+  NSlots = 6
   Grain = "call"
   Fixed = FALSE
-INVARIANTS TypeOK Exclusive LargeEnough HeapFallbackFreedOnce TrailerTruthful MtSafeNeverShares ReuseBlock ExtraCtorDtorOnce
+INVARIANTS TypeOK Exclusive BlockAlive BookkeepingTruthful LargeEnough HeapFallbackFreedOnce TrailerTruthful MtSafeNeverShares ReuseBlock ExtraCtorDtorOnce
 PROPERTIES ExtraUsableAtCreation WarmNoAlloc CompleteNoAlloc
 CHECK_DEADLOCK FALSE
